@@ -165,6 +165,21 @@ func buildDEB(env *Env, v Variant) ([]*Artifact, error) {
 		z[i].Hdr = h
 		a.Semantic = append(a.Semantic, SemMut{Class: "rename-member", Site: "listed:" + mm.Name, Data: arBuild(z), Assert: true, Why: "the member named in the signed list is gone"})
 	}
+	// a second member with the name of a listed one, with other content, placed
+	// BEFORE the genuine member: dpkg-deb takes the first control.tar / data.tar
+	// it meets, so this is what would be installed. The genuine member and the
+	// signed list are untouched.
+	for i, mm := range ms {
+		if strings.HasPrefix(mm.Name, "_gpg") || mm.Name == "debian-binary" {
+			continue
+		}
+		x := clone()
+		shadow := x[i]
+		shadow.Content = tweak(append([]byte{}, shadow.Content...))
+		x = append(x[:i:i], append([]arNew{shadow}, base[i:]...)...)
+		a.Semantic = append(a.Semantic, SemMut{Class: "shadow-member", Site: "before-genuine:" + mm.Name, Data: arBuild(x), Assert: true, KeyHint: "same-name-member-before-the-listed-one",
+			Why: "a member with a listed name and other content precedes the genuine one; package tools use the first"})
+	}
 	for _, where := range []string{"before-signature", "last"} {
 		x := clone()
 		nm := arNew{Name: "extra.tar.gz", Content: []byte("inserted by the C02 harness\n")}
